@@ -709,7 +709,7 @@ pub fn run(ctx: &mut Ctx) {
     ctx.cases("maps", ctx.n(20000, 1000000), 0, maps_case);
     ctx.cases("networks", ctx.n(20000, 1000000), 0, network_case);
     ctx.cases("clocks_densemaps_testers", ctx.n(10000, 400000), 0, misc_case);
-    ctx.cases("actor_states", ctx.n(300, 15000), 0, actor_states_case);
+    ctx.cases("actor_states", ctx.n(1500, 25000), 0, actor_states_case);
     if !ctx.quick() && !ctx.is_replay() && std::env::var_os("SVMON_LANE").is_none() {
         crate::checks::c05::miri_smoke_lane(ctx, "c04", "C04");
     }
